@@ -225,6 +225,7 @@ Definition wf_message (be : bool) (m : message) (hdrbg : list Z) (v : vlevel) : 
 Definition stmt_msg_size_bytes_enc : Prop :=
   forall be m hdrbg v pre post,
     wf_message be m hdrbg v ->
+    len (enc_message be m hdrbg v) < 2 ^ 64 ->        (* the size fits size_t *)
     msg_size_bytes be (pre ++ enc_message be m hdrbg v ++ post) m (len pre)
     = Some (len (enc_message be m hdrbg v)).
 
